@@ -19,10 +19,10 @@ import (
 
 type stampWorld struct {
 	*wire.World
-	eph    []*wire.UDPEndpoint // per UA: socket on an ephemeral port
-	atPort []*wire.UDPEndpoint // per UA: socket on ua-ip:5099 (received-IP + sent-by port)
-	decoyU []*wire.UDPEndpoint // decoy addresses named in Via sent-by / spoofed received
-	decoyT []*wire.TCPListener
+	eph                           []*wire.UDPEndpoint // per UA: socket on an ephemeral port
+	atPort                        []*wire.UDPEndpoint // per UA: socket on ua-ip:5099 (received-IP + sent-by port)
+	decoyU                        []*wire.UDPEndpoint // decoy addresses named in Via sent-by / spoofed received
+	decoyT                        []*wire.TCPListener
 	joinedAnswers, foreignAnswers int
 }
 
